@@ -433,4 +433,6 @@ def run(model, R):
     flag_clobber(R, model.func('contexts.Data.fromjson'), ['ignore_lattice', 'require_lattice', 'raw'])
     from .common import no_unpickle_shortcut
     R.guard('AGREEMENT', None, '_init call sites', no_unpickle_shortcut, model, R, 'AGREEMENT')
+    # file round trips with a matching encoding: load/dump honour the encoding they are given (C12's parameter rules)
+    R.guard('PARAM-CLOBBER', None, 'parameters', c12.param_clobber, model, R)
     return __doc__.strip()
